@@ -222,7 +222,7 @@ def mkFix (id type : String) (edges : List (String × String)) (own : String) (k
 def exTests : List Str :=
   ["has_any_word".toList, "has_group".toList, "has_only_text".toList, "has_category".toList]
 
-/-- a message, a wait with timeout left by two tests, an unconditional edge (default) and a
+/-- a message, a wait with timeout left by two tests (the category of the first one named explicitly), an unconditional edge (default) and a
 "No Response" edge, a join into a group split, a value split, joins, a `start_new_flow` row left
 on Completed and on Expired, a `call_webhook` row left on Success and unconditionally (= Failure), a
 `transfer_airtime` row left on Failure and on Success (any case of the letters), a `split_random`
@@ -235,7 +235,7 @@ variable (a router node that does not wait) -/
 def exRows : List CoreSheet.CRow :=
   [ mkRow "a" "send_message" [("start", "")] (some "A"),
     mkRow "w" "wait_for_response" [("a", "")] none "60",
-    mkRow "y" "send_message" [("w", "yes")] (some "Y"),
+    mkRow "y" "send_message" [("w", "yes")] (some "Y") "" "" "" "Affirmative",
     mkRow "n" "send_message" [("w", "no")] (some "N"),
     mkRow "t" "send_message" [("w", "No Response")] (some "T"),
     mkRow "g" "split_by_group" [("y", ""), ("n", "")] none,
@@ -255,8 +255,8 @@ def exRows : List CoreSheet.CRow :=
     mkRow "" "go_to" [("z", ""), ("v", "")] none "" "" "" "" "" none ["a"],
     mkRow "q" "send_message" [("", "")] (some "Q"),
     mkRow "" "loose_exit" [("q", "")] none,
-    mkRow "qa" "send_message" [("q", "one")] (some "QA"),
-    mkRow "qb" "send_message" [("q", "two"), ("q", "")] (some "QB"),
+    mkRow "qa" "send_message" [("q", "one")] (some "QA") "" "" "" "First",
+    mkRow "qb" "send_message" [("q", "two"), ("q", "")] (some "QB") "" "" "" "Second",
     mkRow "u" "send_message" [("qa", ""), ("qb", "")] (some "U"),
     mkRow "ua" "send_message" [("u", "x")] (some "UA") "" "" "@fields.k",
     mkRow "ub" "send_message" [("u", "y")] (some "UB") "" "" "@fields.k" ]
@@ -326,6 +326,21 @@ theorem fragment_needs_no_hash_bucket_name :
     refuted [mkRow "r" "split_random" [("start", "")] none,
              mkRow "x" "send_message" [("r", "")] (some "X"),
              mkRow "y" "send_message" [("r", "#0")] (some "Y")] 3 = true := by
+  decide +kernel
+
+/-- clause `freshNames`: an explicit category name that is in use — here the name of the default
+category — makes the compiler share that category -/
+theorem fragment_needs_fresh_category_name :
+    refuted [mkRow "w" "wait_for_response" [("start", "")] none,
+             mkRow "y" "send_message" [("w", "yes")] (some "Y") "" "" "" "Other",
+             mkRow "n" "send_message" [("w", "")] (some "N")] 3 = true := by
+  decide +kernel
+
+/-- the same clause: the explicit name is the one GENERATED for an earlier test -/
+theorem fragment_needs_no_generated_category_name :
+    refuted [mkRow "w" "wait_for_response" [("start", "")] none,
+             mkRow "y" "send_message" [("w", "yes")] (some "Y"),
+             mkRow "n" "send_message" [("w", "no")] (some "N") "" "" "" "Yes"] 3 = true := by
   decide +kernel
 
 /-- clause "the conditional edges leaving one action row name the same variable": the router the
